@@ -14,41 +14,41 @@ there is one, the writable sections named in NEVER_RELRO (and every other writab
 not linker-synthesised) must not be protected by it, linker-synthesised sections (.got, .got.plt,
 .dynamic, .relro_padding, TLS data ...) may be on either side.
 
-Rules, for ET_EXEC / ET_DYN (R = also for ET_REL):
+Rules, for ET_EXEC / ET_DYN (R = also for ET_REL, A = advisory, only with strict=True):
   ehdr-*       R  header fields valid; tables inside the file
   shstrtab     R  section-name string table valid, every name in range and NUL-terminated
-  sec-null     R  section header 0 is the null section
+  sec-null     R  section header 0 is the null section (gABI figure 4-10: all fields zero)
   sec-align    R  sh_addralign is 0 or a power of two and sh_addr = 0 (mod sh_addralign)
   sec-extent   R  every non-NOBITS section lies inside the file
   file-overlap R  no two non-empty, non-NOBITS sections share a file byte (key names whether both
-                  are SHF_ALLOC)
-  symtab-*     R  symbol tables: entsize, string table link, locals before globals = sh_info,
+                  are SHF_ALLOC), none overlaps the ELF header or the section header table
+  symtab-*     R  at most one SHT_SYMTAB / SHT_DYNSYM; entsize, string table link, names inside
+                  the string table, locals before globals with sh_info = first non-local,
                   st_shndx in range
-  rel-phdrs    R  (ET_REL only) no program headers
+  rel-*        R  (ET_REL only) no program headers; relocation sections link a symbol table and a
+                  target section, offsets inside the target, symbol indices in range
   addr-overlap    no two non-empty SHF_ALLOC sections share an address (.tbss-like TLS NOBITS
                   sections take no address space and are exempt)
   sec-in-load     every non-empty SHF_ALLOC section lies inside exactly one PT_LOAD, in memory and
                   (non-NOBITS) in the file, at the same delta
   sec-perm        that PT_LOAD has PF_W if SHF_WRITE and PF_X if SHF_EXECINSTR
-  nobits-zero     a NOBITS section reads as zeros in the loaded image
+  nobits-zero     a NOBITS section that a PT_LOAD backs with file bytes is backed by zeros
   load-wx         no PT_LOAD has both PF_W and PF_X
   load-congruent  p_offset = p_vaddr (mod p_align) for every PT_LOAD; p_align 0/1 or a power of 2
   load-size       p_filesz <= p_memsz and the file part lies inside the file
   load-order      PT_LOAD entries ascend by p_vaddr and do not overlap in memory
-  load-page       two PT_LOADs with different permissions do not share a 4 KiB page of memory
-                  (the kernel maps whole pages: the later mapping would replace the earlier one's
-                  permissions)
-  tls-*           exactly one PT_TLS iff there are TLS sections; it starts at the first, ends at
-                  the last, p_filesz ends at the last non-NOBITS one, p_align = max sh_addralign
+  load-page    A  two PT_LOADs with different permissions do not share a 4 KiB page of memory
+  tls-*           exactly one PT_TLS iff there are non-empty TLS sections; it starts at the first
+                  TLS section, ends at the end of the last one (GNU ld rounds p_memsz up to
+                  p_align: accepted), the initialised part covers the PROGBITS ones (a longer
+                  p_filesz must be backed by zeros), p_align >= every TLS section's alignment
   relro-*         see above; additionally the segment starts inside a PT_LOAD and every PT_LOAD it
                   intersects is writable and not executable
   dynamic / interp / ehframehdr   PT_DYNAMIC = .dynamic, PT_INTERP = .interp (NUL-terminated),
                   PT_GNU_EH_FRAME = .eh_frame_hdr: same address, offset, file and memory size
-  phdr-*          PT_PHDR describes the program header table, lies in a PT_LOAD and precedes every
-                  PT_LOAD entry; PT_INTERP precedes every PT_LOAD entry
-  seg-in-load     PT_DYNAMIC / PT_INTERP / PT_GNU_EH_FRAME / PT_GNU_RELRO / PT_NOTE lie inside one
-                  PT_LOAD
-  entry           a non-zero e_entry of an executable lies inside a PT_LOAD
+  phdr-*          PT_PHDR describes exactly the program header table, lies in a PT_LOAD and
+                  precedes every PT_LOAD entry; PT_INTERP precedes every PT_LOAD entry
+  seg-in-load     PT_DYNAMIC / PT_GNU_EH_FRAME / PT_NOTE lie inside one PT_LOAD
 """
 import struct
 
@@ -84,8 +84,10 @@ def is_either_relro(name):
     return any(name == n or name.startswith(n + '.') for n in EITHER_RELRO)
 
 
-def check_wellformed(path_or_elf, page=4096):
-    """-> list of (key, message); [] when the file satisfies every rule."""
+def check_wellformed(path_or_elf, page=4096, strict=False):
+    """-> list of (key, message); [] when the file satisfies every rule. strict=True adds the
+    advisory rules (marked A in the module docstring) that reference linkers break under linker
+    scripts."""
     out = []
 
     def bad(key, msg):
@@ -98,13 +100,13 @@ def check_wellformed(path_or_elf, page=4096):
         key = 'shstrtab' if ('name' in text or 'e_shstrndx' in text) else 'ehdr-parse'
         return [(key, 'unreadable: ' + text)]
     try:
-        _check(e, bad, page)
+        _check(e, bad, page, strict)
     except ElfError as ex:
         bad('malformed', str(ex))
     return out
 
 
-def _check(e, bad, page):
+def _check(e, bad, page, strict):
     n = len(e.data)
     # ------------------------------------------------------------------ ELF header
     if e.e_ident[6] != 1 or e.e_version != 1:
@@ -215,7 +217,8 @@ def _check(e, bad, page):
             bad('load-order:overlap', 'PT_LOAD %d %s and PT_LOAD %d %s overlap in memory'
                 % (a.index, _rng(a.p_vaddr, a.p_vaddr + a.p_memsz), b.index,
                    _rng(b.p_vaddr, b.p_vaddr + b.p_memsz)))
-        elif a.p_flags != b.p_flags and b.p_vaddr // page == (a.p_vaddr + a.p_memsz - 1) // page:
+        elif strict and a.p_flags != b.p_flags and \
+                b.p_vaddr // page == (a.p_vaddr + a.p_memsz - 1) // page:
             bad('load-page', 'PT_LOAD %d (flags %d) ends at %#x and PT_LOAD %d (flags %d) starts '
                 'at %#x: same %d-byte page' % (a.index, a.p_flags, a.p_vaddr + a.p_memsz,
                                                 b.index, b.p_flags, b.p_vaddr, page))
@@ -283,8 +286,9 @@ def _check(e, bad, page):
         first = min(nonempty_tls, key=lambda s: s.sh_addr)
         end = max(s.sh_addr + s.sh_size for s in nonempty_tls)
         filed_tls = [s for s in nonempty_tls if s.sh_type != SHT_NOBITS]
-        fend = max((s.sh_addr + s.sh_size for s in filed_tls), default=first.sh_addr)
-        if p.p_vaddr != first.sh_addr:
+        fend = max((s.sh_addr + s.sh_size for s in filed_tls), default=p.p_vaddr)
+        starts = {first.sh_addr, min(s.sh_addr for s in tls_secs)}
+        if p.p_vaddr not in starts:
             bad('tls-start', 'PT_TLS p_vaddr=%#x but the first TLS section %s is at %#x'
                 % (p.p_vaddr, first.name, first.sh_addr))
         else:
@@ -305,11 +309,14 @@ def _check(e, bad, page):
                     bad('tls-filesz:nonzero', 'PT_TLS p_filesz=%#x extends %#x bytes beyond the '
                         'initialised TLS sections and those file bytes are not zero'
                         % (p.p_filesz, p.p_filesz - (fend - p.p_vaddr)))
-            if filed_tls and first.sh_type != SHT_NOBITS and p.p_offset != first.sh_offset:
+            if filed_tls and first.sh_type != SHT_NOBITS and \
+                    p.p_offset - first.sh_offset != p.p_vaddr - first.sh_addr:
                 bad('tls-offset', 'PT_TLS p_offset=%#x but %s is at file offset %#x'
                     % (p.p_offset, first.name, first.sh_offset))
+        # A linker may let an empty TLS section's alignment count (lld does): only too small a
+        # p_align is wrong.
         want = max(s.sh_addralign for s in nonempty_tls)
-        if p.p_align != max(want, 1) and not (want <= 1 and p.p_align <= 1):
+        if p.p_align < want or (p.p_align > 1 and not _pow2(p.p_align)):
             bad('tls-align', 'PT_TLS p_align=%#x but the largest TLS section alignment is %#x'
                 % (p.p_align, want))
 
@@ -323,7 +330,9 @@ def _check(e, bad, page):
             # GNU ld and lld let the segment span several PT_LOADs when alignment gaps split the
             # RELRO sections; what must hold is that everything it touches is writable data.
             ps = [q for q in loads if q.p_vaddr < hi and lo < q.p_vaddr + q.p_memsz]
-            if not ps or not any(q.p_vaddr <= lo < q.p_vaddr + q.p_memsz for q in ps):
+            if not ps:
+                pass     # covers nothing at all (lld emits this for empty RELRO sections)
+            elif not any(q.p_vaddr <= lo < q.p_vaddr + q.p_memsz for q in ps):
                 bad('relro-in-load', 'PT_GNU_RELRO %s does not start inside a PT_LOAD'
                     % _rng(lo, hi))
             else:
@@ -418,15 +427,13 @@ def _check(e, bad, page):
                     'PT_LOAD consistently' % (p.index, p.p_type, p.p_vaddr, p.p_offset))
     if [p for p in segs if p.p_type == PT_PHDR][1:]:
         bad('phdr-count', 'more than one PT_PHDR')
-    if e.e_entry and e.e_type in (ET_EXEC, ET_DYN) and loads and not load_of(e.e_entry,
-                                                                             e.e_entry + 1):
-        # An entry at the very end of a segment (empty .text) addresses nothing; tolerated only
-        # when it is the end of an executable segment's memory.
-        if not any(e.e_entry == p.p_vaddr + p.p_memsz for p in loads):
-            bad('entry', 'e_entry=%#x is not inside any PT_LOAD' % e.e_entry)
 
 
 def _check_symtabs(e, bad):
+    for ty, nm in ((SHT_SYMTAB, 'SHT_SYMTAB'), (SHT_DYNSYM, 'SHT_DYNSYM')):
+        k = [s.name for s in e.sections if s.sh_type == ty]
+        if len(k) > 1:
+            bad('symtab-count', '%d sections of type %s: %s' % (len(k), nm, k))
     for s in e.sections:
         if s.sh_type not in (SHT_SYMTAB, SHT_DYNSYM):
             continue
